@@ -1052,19 +1052,42 @@ func (b *bitstream) readN(n uint64) ([]byte, error) {
 		return nil, nil
 	}
 
-	bs := make([]byte, n)
-	actual, err := io.ReadFull(b.in, bs)
-	b.pos += uint64(actual)
-
-	if err == io.EOF || err == io.ErrUnexpectedEOF {
-		return nil, &UnexpectedEOFError{b.pos}
+	// A declared length is not trusted before the bytes exist: start with at most one
+	// chunk and double the buffer only after everything allocated so far has been filled,
+	// so the memory used stays proportional to the input actually present.
+	first := n
+	if first > readChunkSize {
+		first = readChunkSize
 	}
-	if err != nil {
-		return nil, &IOError{err}
-	}
+	bs := make([]byte, first)
+	filled := 0
 
-	return bs, nil
+	for {
+		actual, err := io.ReadFull(b.in, bs[filled:])
+		b.pos += uint64(actual)
+
+		if err == io.EOF || err == io.ErrUnexpectedEOF {
+			return nil, &UnexpectedEOFError{b.pos}
+		}
+		if err != nil {
+			return nil, &IOError{err}
+		}
+
+		filled = len(bs)
+		if uint64(filled) == n {
+			return bs, nil
+		}
+
+		grow := n - uint64(filled)
+		if grow > uint64(filled) {
+			grow = uint64(filled)
+		}
+		bs = append(bs, make([]byte, grow)...)
+	}
 }
+
+// ReadChunkSize is the largest allocation readN makes on the strength of a declared length alone.
+const readChunkSize = 64 * 1024
 
 // Read1 reads the next byte of input from the underlying stream, returning
 // an UnexpectedEOFError if it's an EOF.
